@@ -135,6 +135,23 @@ def run(ctx):
                         ctx.probes["reuse_other_state_checked"] += 1
                 except (interp.Inconsistent, interp.Undefined):
                     pass
+            # feed the operator its own output: r1 = op(s), r2 = op(r1), r3 = op(r2) - each must be the successor
+            s_own = lib(ctx, W, S, "-own")[2]
+            cur_ref = S
+            for hop in range(3):
+                try:
+                    if not interp.applicable(cur_ref, act, args, W.D, W.objs):
+                        break
+                    nxt_ref, _ = interp.successor(cur_ref, act, args, W.D, W.objs)
+                except (interp.Inconsistent, interp.Undefined):
+                    break
+                if interp.too_large(nxt_ref):
+                    break
+                s_own = apply_raw(op, s_own, "Operator.apply (re-used operator, own output)")
+                compare(ctx, C.abs_state(s_own, "Operator.apply (own output)", ID), nxt_ref,
+                        "Operator.apply (re-used operator, own output)", f"hop {hop}", W, cur_ref, call)
+                cur_ref = nxt_ref
+                ctx.probes["reuse_own_output_checked"] += 1
             d3, p3, s3 = lib(ctx, W, S, "-again")
             got3 = apply(ctx, op, s3, FLAGS[0], "Operator.apply (re-used operator, first state again)", [])
             compare(ctx, got3, want, "Operator.apply (re-used operator, first state again)", "", W, S, call)
@@ -169,6 +186,13 @@ def apply(ctx, op, s0, flags, site, rec):
     finally:
         ge.GroundedEffect.apply = orig
     return C.abs_state(r, site, ID)
+
+
+def apply_raw(op, st, site):
+    try:
+        return op.apply(st)
+    except Exception as e:
+        raise Violation("C03/applicable-action-raised", site, f"{type(e).__name__}: {e}")
 
 
 def compare(ctx, got, want, site, extra, W, S, call):
